@@ -22,6 +22,7 @@ CONSTANTS Docs, Chans,     \* documents; named channels (the star channel "*" is
           ReqSets,         \* requested-channel filters explored: {"*"} = no filter
           PutSets,         \* channel sets a Put may assign
           ConfSets,        \* channel sets of a conflicting branch
+          CoalSets,        \* channel sets of the two updates of a coalesced pair ({} = no such writes)
           MaxWrites, Lims
 
 Star == "*"
@@ -68,11 +69,21 @@ ConflictWin(d, NC) ==
   /\ docs' = [docs EXCEPT ![d] = ConflictWinDoc(@, nextSeq, nextSeq, NC)] /\ Bump
   /\ Step([a |-> "ConflictWin", doc |-> d, chans |-> NC])
 
+(* two quick updates of a live document whose first mutation never reaches the change cache (feed de-duplication): the
+   cache learns the first sequence only from recent_sequences of the second mutation.  For the documents this is just two
+   Puts; the binding suppresses the feed while the first one is written. *)
+Coalesced(d, NC1, NC2) ==
+  /\ docs[d].seq > 0 /\ ~docs[d].del
+  /\ docs' = [docs EXCEPT ![d] = PutDoc(PutDoc(@, nextSeq, nextSeq, NC1), nextSeq + 1, nextSeq + 1, NC2)]
+  /\ nextSeq' = nextSeq + 2 /\ UNCHANGED grants
+  /\ Step([a |-> "Coalesced", doc |-> d, chans |-> NC1, chans2 |-> NC2])
+
 Next ==
   /\ Len(hist) < MaxWrites
   /\ \E d \in Docs : \/ \E NC \in PutSets : Put(d, NC)
                      \/ \E NC \in ConfSets : Conflict(d, NC) \/ ConflictWin(d, NC)
                      \/ Delete(d)
+                     \/ \E NC1 \in CoalSets, NC2 \in CoalSets : Coalesced(d, NC1, NC2)
 Spec == Init /\ [][Next]_vars
 
 -----------------------------------------------------------------------------
@@ -183,5 +194,5 @@ NoLeak ==
     LET VC == VisChans(grants, u, req)
         B  == RefFeed(docs, VC, 0, 0, FALSE) IN
     \A i \in 1..Len(B) : Star \in VC \/ \E c \in VC : c \in docs[B[i].doc].chans \/ docs[B[i].doc].rem[c] # None
-TypeOK == nextSeq \in 1..(MaxWrites + 1) /\ \A d \in Docs : docs[d].seq < nextSeq
+TypeOK == nextSeq \in 1..(2 * MaxWrites + 1) /\ \A d \in Docs : docs[d].seq < nextSeq
 =============================================================================
